@@ -161,6 +161,14 @@ func c19Scenario(c *choice.Ctx, rep *report.R, depth int) {
 				gs[g].refreshes++
 			}})
 			menu = append(menu, event{name: fmt.Sprintf("refresh-error(%s)", g), fault: true, do: func() { p.Fail(); gs[g].refreshes++ }})
+			menu = append(menu, event{name: fmt.Sprintf("refresh-refused(%s)", g), fault: true, do: func() {
+				p.Reply(env.RCodeReply(p.Msg, 5).Encode(false))
+				gs[g].refreshes++
+			}})
+			menu = append(menu, event{name: fmt.Sprintf("refresh-notimp(%s)", g), fault: true, do: func() {
+				p.Reply(env.RCodeReply(p.Msg, 4).Encode(false))
+				gs[g].refreshes++
+			}})
 		}
 		menu = append(menu, event{name: "advance1s", do: func() { hsleep(time.Second) }})
 		ev := pickEvent(c, menu)
@@ -217,15 +225,74 @@ func pickEvent(c *choice.Ctx, menu []event) *event {
 	return &menu[normal[c.Choose(len(normal), "event:"+lbl)]]
 }
 
+// c19ManyKeys: N distinct questions are all in their refresh window while the upstream is slow: every hit is still immediate.
+func c19ManyKeys(rep *report.R, n int) {
+	own := env.InstallOwn(0xA5, vRace)
+	defer env.UninstallOwn()
+	fail := func(sig, msg string) { rep.Violate("C19:"+sig, msg, map[string]any{"Choices": []int{}, "ManyKeys": n}) }
+	cfg := c03Config("forward")
+	cfg.Cache.MemSize = 8 << 20
+	v, err := vNewRouter(cfg, "u1")
+	if err != nil {
+		fail("router-start", err.Error())
+		return
+	}
+	defer v.Close()
+	u := v.ups["u1"]
+	sc := v.tcpClient(v.newTCPServer(1000, 100000*time.Second), vClientV4, vLocalV4)
+	answer := true
+	u.Auto = func(q *upQuery) *upResult {
+		if !answer {
+			return nil
+		}
+		return &upResult{wire: env.Answer(q.Msg, 1, 20).Encode(false)}
+	}
+	hsleep(300 * time.Millisecond)
+	for i := 0; i < n; i++ {
+		sc.SendMsg(refdns.Query(uint16(i), refdns.N(fmt.Sprintf("k%d", i), "example", "test"), 1, 1))
+	}
+	wait()
+	if got := len(sc.Responses()); got != n {
+		fail("setup", fmt.Sprintf("%d of %d initial responses", got, n))
+		return
+	}
+	answer = false // the upstream becomes slow: refreshes stay pending
+	hsleep(15500 * time.Millisecond)
+	for i := 0; i < n; i++ {
+		before := len(sc.Responses())
+		sc.SendMsg(refdns.Query(uint16(1000+i), refdns.N(fmt.Sprintf("k%d", i), "example", "test"), 1, 1))
+		wait()
+		if len(sc.Responses()) != before+1 {
+			fail("hit-delayed", fmt.Sprintf("hit #%d (of %d different questions whose refreshes are all pending against a slow upstream) was not answered at once", i, n))
+			return
+		}
+	}
+	if p := len(u.Pending()); p != n {
+		rep.Note(fmt.Sprintf("many-keys: %d refreshes pending for %d keys", p, n))
+	}
+	v.Close()
+	for _, x := range own.Audit() {
+		fail("ownership", x)
+	}
+	rep.Eval(fmt.Sprintf("many-keys-%d", n))
+}
+
 func TestVerifC19(t *testing.T) {
 	rep := report.New("C19 prefetch single-flight")
 	defer rep.Write()
 	depth := report.ParamInt("DEPTH", 6)
 	bound := report.ParamInt("FAULTS", 2)
 	rep.Rule = fmt.Sprintf("E3: real router + otter cache + ip marker (2 groups) + ECS, scripted upstream, exact virtual clock; entries for both groups stored with ttl 20, clock advanced to 15.5 s (last quarter); then all sequences of length <=%d over "+
-		"{hit from client g1a / g1b (same group) / g2, refresh answered with ttl 40, refresh answered SERVFAIL, refresh fails, advance 1 s} with <=%d failed refreshes; oracle after every event: a hit on an entry with >1 s to live is answered in the same reaction, "+
-		"never two refresh queries in flight per (question, group), hits show the renewed entry after a successful refresh and the old one after a failed refresh, ttl consistent with the entry's age", depth, bound)
-	st := runExplore(t, rep, bound, func(c *choice.Ctx) { c19Scenario(c, rep, depth) })
-	rep.Count("executions", st.Executions)
+		"{hit from client g1a / g1b (same group) / g2, refresh answered with ttl 40, refresh answered SERVFAIL / REFUSED / NOTIMP, refresh fails, advance 1 s} with <=%d failed refreshes; oracle after every event: a hit on an entry with >1 s to live is answered in the same reaction, "+
+		"never two refresh queries in flight per (question, group), hits show the renewed entry after a successful refresh and the old one after a failed refresh, ttl consistent with the entry's age", depth, bound, report.ParamInt("MANYKEYS", 100))
+	bubble(t, func() {
+		st := runExplore(t, rep, bound, func(c *choice.Ctx) { c19Scenario(c, rep, depth) })
+		rep.Count("executions", st.Executions)
+		if sh, _ := report.Shard(); sh == 0 && report.ReplayFile() == nil {
+			hmu.Lock()
+			c19ManyKeys(rep, report.ParamInt("MANYKEYS", 100))
+			hmu.Unlock()
+		}
+	})
 	rep.Sample(map[string]any{"events": "hit(g1a) hit(g1b) hit(g2) refresh-error(g1) hit(g1a) refresh-ok(g1) hit(g1b)", "oracle": "second hit(g1a) starts a new refresh (the first is done); never 2 pending for g1"})
 }
